@@ -156,7 +156,7 @@ def work_generated(ctx, seed):
 def work_patho(ctx, seed):
     import random
     rng = random.Random(seed)
-    which = [gen.patho_dup_function, gen.patho_mixed_fused, gen.patho_contraction_on_free][seed % 3]
+    which = [gen.patho_dup_function, gen.patho_mixed_fused, gen.patho_contraction_on_free, gen.patho_spd_free_low][seed % 4]
     check_direct(ctx, which(rng), 'patho:%s:%d' % (which.__name__, seed), 'patho:' + which.__name__)
 
 
